@@ -15,6 +15,28 @@ Definition flag_names : list string :=
 (* the variant the proofs are about: every flag repaired *)
 Definition model_flags : list (string * option bool) := map (fun f => (f, Some true)) flag_names.
 
+(* the variant record a flag list denotes (None when a site was not recognised): what the flag list of
+   the current source text says about WHICH instance of the model the theorems must be about *)
+Fixpoint flag_of (fl : list (string * option bool)) (n : string) : option bool :=
+  match fl with [] => None | (k, v) :: r => if String.eqb k n then v else flag_of r n end.
+Definition with_flag {A} (fl : list (string * option bool)) (n : string) (k : bool -> option A) : option A :=
+  match flag_of fl n with Some b => k b | None => None end.
+Definition cfg_of_flags (fl : list (string * option bool)) : option cfg :=
+  with_flag fl "neg_eq" (fun b0 =>
+  with_flag fl "neg_order" (fun b1 =>
+  with_flag fl "neg_set" (fun b2 =>
+  with_flag fl "neg_like" (fun b3 =>
+  with_flag fl "neg_regex" (fun b4 =>
+  with_flag fl "neg_subset" (fun b5 =>
+  with_flag fl "neg_superset" (fun b6 =>
+  with_flag fl "within_float" (fun b7 =>
+  with_flag fl "float_pos" (fun b8 =>
+  with_flag fl "key_quote" (fun b9 =>
+  with_flag fl "hex_empty" (fun b10 =>
+  with_flag fl "rt_append" (fun b11 =>
+  with_flag fl "star_quoted" (fun b12 =>
+  Some (Cfg b0 b1 b2 b3 b4 b5 b6 b7 b8 b9 b10 b11 b12)))))))))))))).
+
 (* constant child indices read by every visit method (children[k], both arms of children[a if c else b],
    the lower bound of children[k:]; -1 = an index expression the translator does not understand) *)
 Definition model_reads : list (string * list nat) :=
